@@ -731,6 +731,9 @@ class VM:
         if self_ty is not None and impls:
             st_base = _base_type(self_ty)
             good = [f for f in impls if (f.params and _base_type(f.params[0][1]) == st_base) or (not f.params and _base_type(f.ret) == st_base)]
+            if not good:
+                # associated function without receiver (constructor-like): match on the return type
+                good = [f for f in impls if _base_type(f.ret) == st_base or _base_type(re.sub(r'^(Option|Result)<', '', f.ret)) == st_base]
             if len(good) == 1:
                 return good[0]
             if len(good) > 1:
@@ -837,6 +840,13 @@ class VM:
         if mref and all(isinstance(a, Ptr) for a in argvals):
             inner = f'<{mref.group(1)} as PartialEq>::{mref.group(3)}'
             return self.call_named(st, inner, [self.load(st, a) for a in argvals], dest, ret_bb)
+        # trait-object call: dispatch on the concrete type of the receiver
+        mdyn = re.match(r'^<dyn (.+?) as (.+?)>::(\w+)$', callee)
+        if mdyn and argvals and isinstance(argvals[0], Ptr):
+            recv = self.load(st, argvals[0])
+            tag = getattr(recv, 'tag', None)
+            if tag:
+                return self.call_named(st, f'<{tag} as {mdyn.group(2)}>::{mdyn.group(3)}', argvals, dest, ret_bb)
         fn = self.resolve_local(callee, argvals)
         if fn is not None:
             self.push_call(st, fn, argvals, dest, ret_bb)
